@@ -11,7 +11,8 @@ RULE = (
     'with bursts around the 50/100 limits in the thorough tier); invariants checked at every dispatch, handler '
     'enter/exit and after every operation: len(history) <= N; eviction order consistent with completed < started < '
     'pending, oldest first (judged conservatively from consecutive snapshots); at the end every accepted event was '
-    'handled exactly once, is complete and awaitable. Non-trivial = at least one eviction happened while an in-flight '
+    'handled exactly once, is complete and awaitable. A quarter of the cases are 2-3-bus scenarios with forwarding and histories of 1-5 (an event '
+    'in flight on a target bus sits in the forwarding bus\'s history), watched by the same rules at every trace record. Non-trivial = at least one eviction happened while an in-flight '
     'event was in the history; distinct by canonical JSON.'
 )
 ASSUMPTIONS = ['virtual time', 'explicit strictly increasing event_created_at so "oldest" is unambiguous', 'eviction classes judged by the public event_status']
@@ -37,16 +38,50 @@ def budget(tier):
     return {'examples': 3000 if tier == 'quick' else 60000, 'wall_s': 300 if tier == 'quick' else 3000, 'shrink_s': 60}
 
 
+# The call-history world above has one bus. A quarter of the cases are 2-3-bus whole-program scenarios with forwarding and bounded
+# histories instead (an event in flight on a target bus sits in the forwarding bus's history too), watched by the same conservative
+# eviction rules at every trace record.
+from bvt.gen import Profile, scenario  # noqa: E402
+
+P_FWD = Profile(min_buses=2, max_buses=3, par=0.1, fwd=1.0, typed_fwd=False, hist=[1, 2, 2, 3, 5], maxdepth=[1, 2], wild=0.2, raises=0.05, cap=24, max_actors=3, max_actor_ops=6,
+                actor_ops=['disp', 'disp', 'disp', 'burst', 'sleep', 'await', 'yield'], modes=['await', 'await', 'later', 'ff'], burst=[2, 3], durs=[0.01, 0.05, 0.1, 0.25])
+
+
+def _run_engine_case(sc):
+    from bvt import oracles
+    from bvt.engine import fmt_trace, run_scenario
+    from bvt.facts import Facts
+
+    sc = dict(sc, histwatch=True)
+    out = run_scenario(sc)
+    F = Facts(sc, out)
+    h = out.get('hist') or {}
+    viol = [tuple(v) for v in h.get('viol', [])]
+    # eviction never changes what gets processed: exactly-once delivery and completion as without a bound
+    viol += [('C13.c', d[1]) for d in oracles.c01(F) if d[0] in ('C01.a', 'C01.b', 'C01.d')]
+    if F.hang:
+        viol.append(('C13.c', f'run never became quiescent: {oracles.hang_text(F)}'))
+    else:
+        viol += [('C13.c', d[1]) for d in oracles.all_complete(F, 'C13.c')]
+    cl = ['multi-bus-forwarding-scenario', f'N={min(b["hist"] for b in sc["buses"])}']
+    if h.get('evictions'):
+        cl.append('evictions')
+    if h.get('evicted_inflight'):
+        cl.append('evicted-inflight-event')
+    return {'viol': viol[:1], 'nontrivial': bool(h.get('evictions')), 'classes': cl, 'hang': bool(F.hang), 'log': fmt_trace(out)}
+
+
 def strategy(tier):
-    if tier == 'quick':
-        return st.one_of(small, small, small, small, small, small, small, big)
-    return st.one_of(small, small, small, big)
+    hw = st.one_of(small, small, small, small, small, small, small, big) if tier == 'quick' else st.one_of(small, small, small, big)
+    return st.integers(0, 3).flatmap(lambda k: scenario(P_FWD) if k == 0 else hw)
 
 
 MINE = ('C13.a', 'C13.b', 'C13.c', 'HANG')
 
 
 def run_case(sc):
+    if 'buses' in sc:
+        return _run_engine_case(sc)
     out = run_history(sc)
     viol = [v for v in out['viol'] if v[0] in MINE or v[0] == 'C14.a']
     viol = [(('C13.c' if v[0] in ('HANG', 'C14.a') else v[0]), v[1]) for v in viol]
